@@ -1007,9 +1007,18 @@ def case_eigs(ctx, P, rng, nprng):
         for k_, t_ in fails:
             ctx.violation(k_, t_, wit)
     # ---- invariance under v0 -> c v0: the same call on the unit-scale vector must give the same pairs
-    if c != 1.0 and mech is None:
+    yv1 = hv1.to_yastn(P.cfg) if c != 1.0 else None
+    comparable = c != 1.0 and mech is None
+    if comparable:
+        # the unit-scale run must be in the same regime: the recorded finding (absolute breakdown threshold) makes the basis length
+        # depend on round-off when the exhausted-space residual sits at the threshold -- such pairs of runs are counted, not compared
+        obs1 = observed_basis(P, yv1, 1e-13, ncv, hflag)
+        if breakdown_premise(P, r, status, ncv, obs1)[1] is not None or obs1["m"] != obs["m"]:
+            ctx.count("eigs_scale_invariance_skipped_borderline_breakdown")
+            comparable = False
+    if comparable:
         ctx.count("eigs_calls")
-        val1, Y1 = yastn.eigs(P.f, hv1.to_yastn(P.cfg), k=k, which=which, ncv=ncv, hermitian=hflag)
+        val1, Y1 = yastn.eigs(P.f, yv1, k=k, which=which, ncv=ncv, hermitian=hflag)
         val1 = np.atleast_1d(np.asarray(val1))
         ys1 = [observe_vector(ctx, "eigs", y_, P, wit) for y_ in Y1]
         if len(val1) == k and all(y_ is not None for y_ in ys1):
@@ -1441,11 +1450,16 @@ def case_edge(ctx, P, rng, nprng, scen):
                 differ("eigs-tol=0", "eigs(tol=0) differs from eigs() although tol is documented as not implemented")
             hb, bvec = gen_vector(P, rng, nprng, "random")
             yb = hb.to_yastn(P.cfg)
-            ctx.count("lin_solver_calls"); ctx.count("edge_tol_zero_checked")
-            x, res = yastn.lin_solver(f, yb, yb * 0, ncv=min(2, P.d - 1), tol=0, hermitian=hf)
-            xv = observe_vector(ctx, "lin_solver", x, P, wit)
-            if xv is not None:
-                judge_lin(ctx, P, xv, res, bvec, float(np.linalg.cond(P.M)), None, None, wit)
+            if reachable_dim(P.M, bvec, P.nrm)[0] >= 3:
+                ctx.count("lin_solver_calls"); ctx.count("edge_tol_zero_checked")
+                x, res = yastn.lin_solver(f, yb, yb * 0, ncv=2, tol=0, hermitian=hf)
+                xv = observe_vector(ctx, "lin_solver", x, P, wit)
+                if xv is not None:
+                    judge_lin(ctx, P, xv, res, bvec, float(np.linalg.cond(P.M)), None, None, wit)
+            else:
+                # tol = 0 and a Krylov space exhausted within ncv steps: the residual is divided by its zero norm (nan, LinAlgError
+                # from pinv); the docstring gives tol no meaning there -> counted, not called
+                ctx.count("lin_solver_tol0_exhausted_space_unjudged")
         ctx.count("expmv_tol_zero_undefined_not_called")
     elif scen == "zero-operator":
         f0 = lambda x: f(x) * 0.0
